@@ -102,6 +102,8 @@ public:
         // Sparse LU decomposition
         ColMajorSparseComplexMatrix mat = m_mat.template cast<Complex>() - Complex(sigmar, sigmai) * I;
         m_solver.compute(mat);
+        if (m_solver.info() != Eigen::Success)
+            throw std::invalid_argument("SparseGenComplexShiftSolve: factorization failed with the given shift");
         // Set cache to zero
         m_x_cache.resize(m_n);
         m_x_cache.setZero();
